@@ -134,6 +134,12 @@ def engine_oracle(engines, check_align=False):
             if val is None: continue
             v0 = val.split(":code=")[0]
             sem = mkv.get(e + "sem")
+            if " anyprog=" in line:
+                # outside C12's claim (not accepted by the default verifier): only the compile models are validated here
+                if v0 != sem: return "CORR:%s: compile outcome '%s' where the compile model says '%s'" % (e, v0, sem)
+                if e == "jit" and ikv.get("jitcode") is not None and ikv.get("jitcode") != mkv.get("jitcodesem"):
+                    return "CORR:the JIT's machine code differs from the emitter model's"
+                continue
             if v0.startswith("compile-panic"): return e + ": compilation panicked"
             if v0.startswith("nonrepeatable"): return e + ": compiling twice gave different results (" + v0 + ")"
             if v0 == "compile-err" or sem == "compile-err":
